@@ -22,6 +22,9 @@ func init() {
 			"(R08.2) every write of Number and Decimal is an element store or copy() whose destination is the parameter slice itself or a low-bound-only reslice of it (bounds-checked by the language against len(num)); there is no append to it, no high-bounded reslice used as a write target and no unsafe, so a write outside the slice can only panic, never touch the caller's neighbouring bytes.",
 		Run: runC08,
 	})
+	mutant(&Mutant{Name: "c08-shorter-part-judged-from-index-zero", Property: "C08", File: "common.go",
+		Old: "\t\t\t} else if dot-start < end-dot-1 {\n\t\t\t\tcopy(num[start+1:], num[start:dot])", New: "\t\t\t} else if dot < end-dot-1 {\n\t\t\t\tcopy(num[start+1:], num[start:dot])",
+		Rule: "R08.11", Construct: "relates like with like"})
 	mutant(&Mutant{Name: "c08-decimal-writes-exponent", Property: "C08", File: "common.go",
 		Old: "\tif neg {\n\t\tstart--\n\t\tnum[start] = '-'\n\t}\n\treturn num[start:end]\n}\n\n// Number minifies", New: "\tif neg {\n\t\tstart--\n\t\tnum[start] = '-'\n\t}\n\tif 3 < end-start && num[end-1] == '0' && num[end-2] == '0' && num[end-3] == '0' && dot == end {\n\t\tnum[end-3] = 'e'\n\t\tnum[end-2] = '3'\n\t\tend--\n\t}\n\treturn num[start:end]\n}\n\n// Number minifies",
 		Rule: "R08.1", Construct: "Decimal"})
@@ -77,6 +80,7 @@ func runC08(c *Ctx) {
 	c.r088(pk)
 	c.r089(pk)
 	c.r0810(pk)
+	c.r0811(pk)
 	for _, name := range []string{"Decimal", "Number"} {
 		fd := c.fn(r2, pk, name)
 		if fd == nil {
